@@ -11,12 +11,17 @@ import (
 	"encoding/json"
 	"errors"
 	"fmt"
+	"github.com/inbucket/inbucket/v3/pkg/extension/luahost"
+	"github.com/rs/zerolog"
+	zlog "github.com/rs/zerolog/log"
 	"io"
 	"math/rand"
 	"net/mail"
 	"os"
 	"os/signal"
 	"path/filepath"
+	"regexp"
+	"strings"
 	"sync"
 	"syscall"
 	"time"
@@ -83,6 +88,7 @@ type storeBehaviour struct {
 	Events bool      `json:"events"`  // record after-events (C16); deliveries then go through message.StoreManager
 	Procs  bool      `json:"procs"`   // every mutating operation runs in a fresh child process (C10: restart between any two operations)
 	HoldMS int       `json:"hold_ms"` // every listener invocation takes this long (exposes overlapping dispatch)
+	Lua    bool      `json:"lua"`     // with events: the listener is a Lua script (after.message_stored / after.message_deleted) that reports through its logger
 	Ops    []storeOp `json:"ops"`
 }
 
@@ -148,6 +154,50 @@ func (r *evRec) drain(quiet time.Duration) []tr.Ev {
 		out = []tr.Ev{}
 	}
 	return out
+}
+
+const luaEventScript = `
+local logger = require("logger")
+function inbucket.after.message_stored(msg)
+  logger.info("verif-ev begin stored " .. msg.mailbox .. " " .. msg.id, {})
+  local x = 0
+  for i = 1, 300000 do x = x + i % 7 end
+  logger.info("verif-ev end stored " .. msg.mailbox .. " " .. msg.id, {})
+end
+function inbucket.after.message_deleted(msg)
+  logger.info("verif-ev begin deleted " .. msg.mailbox .. " " .. msg.id, {})
+  logger.info("verif-ev end deleted " .. msg.mailbox .. " " .. msg.id, {})
+end
+`
+
+// luaEvWriter turns the script's log lines into recorded invocations (entry / exit stamps = order of the lines).
+type luaEvWriter struct {
+	rec  *evRec
+	open map[string]int64
+}
+
+var luaEvLine = regexp.MustCompile(`verif-ev (begin|end) (stored|deleted) ([^ "\\]+) ([^ "\\]+)`)
+
+func (l *luaEvWriter) Write(p []byte) (int, error) {
+	m := luaEvLine.FindSubmatch(p)
+	if m == nil {
+		return len(p), nil
+	}
+	r := l.rec
+	r.mu.Lock()
+	defer r.mu.Unlock()
+	if l.open == nil {
+		l.open = map[string]int64{}
+	}
+	key := string(m[2]) + " " + string(m[3]) + " " + string(m[4])
+	r.seq++
+	if string(m[1]) == "begin" {
+		l.open[key] = r.seq
+	} else {
+		r.evs = append(r.evs, tr.Ev{"k": string(m[2]), "mb": string(m[3]), "id": string(m[4]), "en": l.open[key], "ex": r.seq})
+		delete(l.open, key)
+	}
+	return len(p), nil
 }
 
 // flushEvents waits until every after-event emitted so far has been handed to the recording listener: a sentinel
@@ -250,7 +300,19 @@ func runStoreBehaviourHooked(w *tr.Writer, b storeBehaviour, seed int64, scratch
 	rng := rand.New(rand.NewSource(seed))
 	host := extension.NewHost()
 	rec := &evRec{hold: time.Duration(b.HoldMS) * time.Millisecond}
-	if b.Events {
+	if b.Events && b.Lua {
+		// the script reports the beginning and the end of every call through its logger; the log lines, in the order they
+		// are written, give the entry / exit stamps; the stored handler is slow (a counting loop)
+		lw := &luaEvWriter{rec: rec}
+		// the driver runs with logging disabled; the script's own logger must get through (everything else stays silent)
+		zlog.Logger = zerolog.Nop()
+		zerolog.SetGlobalLevel(zerolog.InfoLevel)
+		defer zerolog.SetGlobalLevel(zerolog.Disabled)
+		if _, err := luahost.NewFromReader(zerolog.New(lw), host, strings.NewReader(luaEventScript), "verif-events.lua"); err != nil {
+			w.Emit(tr.Ev{"a": "harness-error", "t": b.ID, "err": "lua: " + err.Error()})
+			return
+		}
+	} else if b.Events {
 		host.Events.AfterMessageDeleted.AddListener("verif", func(m event.MessageMetadata) { rec.invoke("deleted", m) })
 		host.Events.AfterMessageStored.AddListener("verif", func(m event.MessageMetadata) { rec.invoke("stored", m) })
 	}
